@@ -11,7 +11,10 @@ Implementation side (all real code, nothing mocked):
     objects and (b) translated with `eql_to_sql` and executed on that session.
 Observation (what the property talks about): the set of selected entities in both worlds (objects ↔ rows through the
 to_dao memo), the failure class of `the(...)`, and whether translation raised an EQLTranslationError ("rejected") or
-let another exception escape ("escape").
+let another exception escape ("escape").  Cases marked `(mult T)` (every equality join between two variables with
+controlled numbers of partner rows, half of the single-variable cases) observe the LIST of returned rows / solutions with
+repetitions: EQL has one solution per matching pair, the statement one row per joined pair, and `the(...)` must fail in
+both worlds when one entity is returned twice.
 
 In-memory EQL has a known defect with falsy bound values (F-C01-3: 0, 0.0, "", [] can be filtered): the generator keeps
 every column value and literal truthy (non-zero numbers) so that C07 does not trip over C01's finding.
@@ -64,6 +67,9 @@ RULE = ("corpus + seeded structured cases over the dataset's Position/Position4D
         "World/Body/Handle/Container/Connection*/Door/Drawer classes: literal comparisons, chains across 1-2 "
         "relationships, membership, and_/or_ nesting, same-variable column comparisons, the(...), subclass-typed "
         "variables, two-variable comparisons and equality joins, constructs outside the translator's dispatch; "
+        "a deterministic family of every accepted equality-join shape (selected class x other class x relationship "
+        "pair, either operand order) over databases whose selected entities have 0/1/2/3 partner rows, each run with "
+        "an(...) and the(...) and observed WITH multiplicity; "
         "3-12 persisted objects incl. None in optional columns; both worlds run for real; non-trivial = the expected "
         "answer is neither empty nor every candidate (or a definite rejection); distinct by case text")
 
@@ -393,9 +399,10 @@ class _Gen:
         return "(%s %s %s)" % (op, self.tree(depth - 1, var_pool, leaf), self.tree(depth - 1, var_pool, leaf))
 
 
-def _case_line(the: bool, kind: str, vars_: List[str], cond: str, sch: Sch, db: _DB) -> str:
-    return "(q (the %s) (kind %s) (vars %s) (cond %s) %s %s)" % (
-        "T" if the else "F", kind, " ".join(vars_), cond, sch.sexp(), db.sexp())
+def _case_line(the: bool, kind: str, vars_: List[str], cond: str, sch: Sch, db: _DB, mult: bool = False) -> str:
+    """`mult`: observe the LIST of returned rows / solutions (with repetitions) instead of the set of entities"""
+    return "(q (the %s) (kind %s) (vars %s) (cond %s)%s %s %s)" % (
+        "T" if the else "F", kind, " ".join(vars_), cond, " (mult T)" if mult else "", sch.sexp(), db.sexp())
 
 
 ROOTS = {
@@ -433,7 +440,13 @@ def _gen_one(rng, stream: str) -> Case:
         the = rng.random() < 0.2
         if the:
             tags.add("the")
-        return Case(_case_line(the, "entity", [root], cond, sch, db), tuple(sorted(tags | g.tags)), "random")
+        mult = rng.random() < 0.5
+        if mult:
+            tags.add("multiplicity")
+        return Case(_case_line(the, "entity", [root], cond, sch, db, mult), tuple(sorted(tags | g.tags)), "random")
+
+    if stream == "joinmult":
+        return _gen_joinmult(rng)
 
     if stream == "two":
         # second variable: same class, a class sharing the declaring tables, or a sibling usable in an equality join
@@ -531,11 +544,116 @@ def _gen_one(rng, stream: str) -> Case:
     return Case(_case_line(False, kind, vars_, cond, sch, db), tuple(sorted(tags | g.tags)), "random")
 
 
-def generate(rng, tier, n):
+# ---- two-variable equality joins with controlled numbers of partner rows (multiplicity / the(...))
+
+PARTNER_PATTERNS = [[2], [0, 2], [1], [1, 1], [3], [0], [2, 1], [0, 3, 1], [2, 0, 0], [1, 2, 3], [0, 0], [1, 0]]
+
+
+def _join_shapes(sch: Sch):
+    """every (selected class, other class, rel of selected, rel of other, class of the shared target) the translator
+    turns into `select(sel).join(other, other.rel_id == sel.rel_id)`: concrete classes unrelated by inheritance"""
+    conc = [c for c in sch.order if c not in VOCAB[sch.family]["abstract"]]
+    for sel in conc:
+        for oth in conc:
+            if sel == oth or sch.is_sub(sel, oth) or sch.is_sub(oth, sel):
+                continue
+            for ra, ta in sch.rels(sel):
+                for rb, tb in sch.rels(oth):
+                    if sch.is_sub(ta, tb) or sch.is_sub(tb, ta):
+                        low = ta if sch.is_sub(ta, tb) else tb
+                        yield sel, oth, ra, rb, sch.concrete(low)[0]
+
+
+def _join_db(sch: Sch, sel: str, oth: str, ra: str, rb: str, tcls: str, pattern: List[int]) -> _DB:
+    """selected entity i shares its `ra` target with exactly pattern[i] objects of class `oth` (through `rb`);
+    every other relationship points to filler objects nobody else shares"""
+    db = _DB(sch)
+    fillers: Dict[str, int] = {}
+
+    def mk(cls: str, fixed: Dict[str, int]) -> int:
+        vals = {a: 1 + (len(db.objs) % 3) for a, _ in sch.cols(cls)}
+        if cls == "World":
+            vals["id"] = 1 + len(db.of("World"))
+        refs = {}
+        for r, t in sch.rels(cls):
+            refs[r] = fixed[r] if r in fixed else filler(sch.concrete(t)[0])
+        return db.add(cls, vals, refs)
+
+    def filler(cls: str) -> int:
+        if cls not in fillers:
+            fillers[cls] = mk(cls, {})
+        return fillers[cls]
+
+    for n in pattern:
+        t = mk(tcls, {})
+        mk(sel, {ra: t})
+        for _ in range(n):
+            mk(oth, {rb: t})
+    if not db.of(oth):
+        mk(oth, {})  # the other variable's domain must be inhabited (its rb target is a filler: no partner)
+    return db
+
+
+def _join_family(tier: str) -> List[Case]:
     cases = []
+    sch = Sch("world")
+    shapes = list(_join_shapes(sch))
+    step = 1 if tier != "quick" else max(1, len(shapes) // 110)
+    k = 0
+    for si, (sel, oth, ra, rb, tcls) in enumerate(shapes):
+        if si % step:
+            continue
+        pats = PARTNER_PATTERNS if tier != "quick" else [PARTNER_PATTERNS[(k + j) % len(PARTNER_PATTERNS)] for j in (0, 5)]
+        for pat in pats:
+            k += 1
+            db = _join_db(sch, sel, oth, ra, rb, tcls, pat)
+            a, b = _ch(0, (ra,)), _ch(1, (rb,))
+            cond = "(cmp eq %s %s)" % ((a, b) if k % 2 else (b, a))
+            if k % 3 == 0:
+                sc = sch.scalar_chains(sel, 1)
+                if sc:
+                    path, _ = sc[k % len(sc)]
+                    cond = "(and %s (cmp ge %s (lit 1)))" % (cond, _ch(0, path))
+            tags = ("join-family", "world", "root-" + sel, "eq-join", "multiplicity", "partners-" + "-".join(map(str, pat)))
+            for the in (False, True):
+                cases.append(Case(_case_line(the, "entity", [sel, oth], cond, sch, db, True),
+                                  tags + (("the",) if the else ()), "exhaustive"))
+    return cases
+
+
+def _gen_joinmult(rng) -> Case:
+    """random and_-only conditions with an equality join between two variables; rows observed with multiplicity"""
+    sch = Sch("world")
+    shapes = list(_join_shapes(sch))
+    sel, oth, ra, rb, tcls = rng.choice(shapes)
+    if rng.random() < 0.5:
+        pat = [rng.choice([0, 1, 1, 2, 2, 3]) for _ in range(rng.randint(1, 3))]
+        db = _join_db(sch, sel, oth, ra, rb, tcls, pat)
+    else:
+        db = _gen_db(rng, sch, sel, _others_for(rng, sch, sel) + [oth] + _others_for(rng, sch, oth))
+    g = _Gen(rng, sch, db, [sel, oth])
+    a, b = _ch(0, (ra,)), _ch(1, (rb,))
+    cond = "(cmp eq %s %s)" % ((a, b) if rng.random() < 0.5 else (b, a))
+    tags = {"joinmult", "world", "root-" + sel, "eq-join", "multiplicity"}
+    for _ in range(rng.choice([0, 0, 1, 2])):
+        if rng.random() < 0.2:
+            extra = g.eq_join_atom(allow_same_class=False)  # possibly a second join (to the already joined class)
+        else:
+            extra = g.atom([0]) if g.chains(0) else None
+        if extra is None:
+            continue
+        cond = "(and %s %s)" % ((cond, extra) if rng.random() < 0.5 else (extra, cond))
+    the = rng.random() < 0.45
+    if the:
+        tags.add("the")
+    return Case(_case_line(the, "entity", [sel, oth], cond, sch, db, True), tuple(sorted(tags | g.tags)), "random")
+
+
+def generate(rng, tier, n):
+    cases = _join_family(tier)
     for i in range(n):
         r = rng.random()
-        stream = "single" if r < 0.62 else ("two" if r < 0.84 else "unsupported")
+        stream = "single" if r < 0.56 else ("two" if r < 0.76 else ("joinmult" if r < 0.86 else "unsupported"))
         cases.append(_gen_one(rng, stream))
     return cases
 
@@ -556,7 +674,7 @@ def nontrivial(case: Case, spec: str) -> bool:
     fam = "geom" if any(c[0] == vars_[0] for c in VOCAB["geom"]["classes"]) else "world"
     sch = Sch(fam)
     nroots = sum(1 for o in sx_field(s[1:], "db") if sch.is_sub(o[1], vars_[0]))
-    return 0 < len(mem.strip("[]").split(",")) < nroots
+    return 0 < len(set(mem.strip("[]").split(","))) < nroots or len(mem.split(",")) != len(set(mem.split(",")))
 
 
 def holds(impl: str) -> bool:
@@ -849,12 +967,12 @@ def _build_query(s, fam: str, objs):
     return quant(body)
 
 
-def _ids(xs, index) -> str:
-    out = set()
+def _ids(xs, index, mult: bool = False) -> str:
+    out = []
     for x in xs:
         i = index.get(id(x))
-        out.add(-1 if i is None else i)
-    return "[" + ",".join(str(i) for i in sorted(out)) + "]"
+        out.append(-1 if i is None else i)
+    return "[" + ",".join(str(i) for i in sorted(out if mult else set(out))) + "]"
 
 
 def _w_one(line: str) -> Tuple[str, str]:
@@ -870,6 +988,7 @@ def _w_one(line: str) -> Tuple[str, str]:
         vars_ = sx_field(items, "vars")
         fam = "geom" if any(c[0] == vars_[0] for c in VOCAB["geom"]["classes"]) else "world"
         is_the = sx_field(items, "the")[0] == "T"
+        mult = (sx_field(items, "mult") or ["F"])[0] == "T"
         W["SymbolGraph"]()
         objs = _build_objects(fam, sx_field(items, "db"))
         oidx = {id(o): i for i, o in enumerate(objs)}
@@ -890,7 +1009,7 @@ def _w_one(line: str) -> Tuple[str, str]:
             try:
                 tr = W["eql_to_sql"](q_sql, session)
                 res = tr.evaluate()
-                sql = ("one:%s" % didx.get(id(res), -1)) if is_the else _ids(res, didx)
+                sql = ("one:%s" % didx.get(id(res), -1)) if is_the else _ids(res, didx, mult)
             except W["EQLTranslationError"]:
                 return "rejected", ""
             except W["NoResultFound"]:
@@ -902,7 +1021,7 @@ def _w_one(line: str) -> Tuple[str, str]:
             # ---- in-memory world (fresh query object)
             try:
                 r = q_mem.evaluate()
-                mem = ("one:%s" % oidx.get(id(r), -1)) if is_the else _ids(list(r), oidx)
+                mem = ("one:%s" % oidx.get(id(r), -1)) if is_the else _ids(list(r), oidx, mult)
             except W["NoSolutionFound"]:
                 mem = "none"
             except W["MultipleSolutionFound"]:
